@@ -49,7 +49,7 @@ func vhRevSet(n int) []vhRev {
 	revs := make([]vhRev, n)
 	// digests: a concrete permutation of distinct characters (chosen per path), so that ids are distinct by
 	// construction and map operations on them do not fork; generations and tombstone flags stay symbolic.
-	digs := []byte("3a7e")
+	digs := []byte("3a7e1c")
 	used := make([]bool, len(digs))
 	for i := 0; i < n; i++ {
 		d := i
